@@ -214,6 +214,17 @@ func cmdCheck(args []string) int {
 					}
 				}
 				if !also {
+					// a clause that serves other properties only: this check does not prove it, so it must not
+					// lean on it either (a failure of that clause would otherwise mask failures of the claimed ones)
+					// (opt-in: GVC_DROP_UNCLAIMED=1. By default the clauses of a function stand together - every one of
+					// them is claimed by the check of the property it is tagged with, and all 19 checks must pass -
+					// and supporting clauses are tagged with every property that relies on them.)
+					if os.Getenv("GVC_DROP_UNCLAIMED") != "" && o.assumeIdx >= 0 && r.Query != nil && !o.Cover {
+						if r.Query.skip == nil {
+							r.Query.skip = map[int]bool{}
+						}
+						r.Query.skip[o.assumeIdx] = true
+					}
 					continue
 				}
 			}
